@@ -141,7 +141,7 @@ def build(kinds, seed=0):
     b = content(['a', 'b']) + [D.ns('c', c), D.ns('a', content(['a', 'b', 'a']))]
     b2 = content(['a', 'b2'])
     a = content(['a'])
-    a = a[:2] + [D.ns('b', b)] + a[2:] + [D.ns('b2', b2)]
+    a = a[:2] + [D.ns('b', b)] + a[2:] + [D.ns('b2', b2), D.ns('n_m', content(['a', 'n_m']) + [D.ns('in_ner', content(['a', 'n_m', 'in_ner']))])]
     g = content([])
     zz = content(['z'])
     return g[:1] + [D.ns('a', a)] + g[1:] + [D.ns('g', [D.ns('h', content(['g', 'h']))]),
